@@ -85,7 +85,9 @@ pub fn run() -> i32 {
         jobs.push(("special-env", vec![format!("{} / _,{}", io, lhs)], vec![format!("{} / {} _, _ {}", io, l_before, l_after)]));
     } } }
     // (d) optionals
-    let xopts: Vec<Vec<&str>> = vec![vec!["C"], vec!["V"], vec!["t"], vec!["[]"], vec!["C", "V"], vec!["p", "a"], vec!["$"], vec!["%"]];
+    let xopts: Vec<Vec<&str>> = vec![vec!["C"], vec!["V"], vec!["t"], vec!["[]"], vec!["C", "V"], vec!["p", "a"], vec!["$"], vec!["%"],
+        // an alpha inside the optional: every repetition of one attempt shares the binding, as the written-out repetitions do
+        vec!["[αvoice]"], vec!["[αhi]"], vec!["[αvoice]", "[βhi]"]];
     let tails = ["", "t", "a", "#", "$", "V"];
     let maxl = if thorough { 5 } else { 4 };
     for x in &xopts { for m in 0..=3usize { for n in m..=3usize { if n == 0 { continue; }
